@@ -582,6 +582,16 @@ class DLC(utils.EventEmitter):
     def on_disc_frame(self, _frame: RFCOMM_Frame) -> None:
         # TODO: handle all states
         self.send_frame(RFCOMM_Frame.ua(c_r=1 - self.c_r, dlci=self.dlci))
+        if self.state in (DLC.State.DISCONNECTED, DLC.State.RESET):
+            return
+
+        # The peer closed the DLC: this end is closed too.
+        self.change_state(DLC.State.DISCONNECTED)
+        if self.disconnection_result:
+            self.disconnection_result.set_result(None)
+            self.disconnection_result = None
+        self.multiplexer.on_dlc_disconnection(self)
+        self.emit(self.EVENT_CLOSE)
 
     def on_uih_frame(self, frame: RFCOMM_Frame) -> None:
         data = frame.information
